@@ -100,7 +100,9 @@ def run(ctx):
         enum = "bin_operator::BinOperator"
         universe = [v["name"] for v in lib.adts[enum]["variants"]]
         sws = enum_switches(b, enum)
-        res.floor(len(sws), 3, "switches:BinOperation::exec")
+        # the number of switches is a matter of style (`if let` twice or one `match` with a `_ => ()` arm): what has to
+        # exist is a switch over the operator at all; the dataflow below decides which variants reach a panicking default
+        res.floor(len(sws), 1, "switches:BinOperation::exec")
         for sw in sws:
             if not panics(b, sw["otherwise"]):
                 continue
